@@ -344,13 +344,20 @@ type EvCase struct {
 func (c EvCase) canon() string { b, _ := json.Marshal(c); return string(b) }
 
 var allEvents = []string{"create", "write", "remove", "rename", "chmod"}
-var evFiles = []string{"src/w1", "src/w1.go", "src/w2.go", "src/ex.go", "other.txt"} // src/w1 is a textual prefix of src/w1.go
+var evFiles = []string{"src/w1", "src/w1.go", "src/w2.go", "src/ex.go", "other.txt", ".wenv", ".cfg/w3"} // src/w1 is a textual prefix of src/w1.go
+
+// observedEv: the files the watcher's patterns select (src/w*, src/*.go minus src/ex*, the dot-file .w* and the
+// content of the dot-directory .cfg)
+func observedEv(f string) bool {
+	return strings.HasPrefix(f, "src/w") || strings.HasPrefix(f, ".w") || strings.HasPrefix(f, ".cfg/")
+}
 
 func runEvents(c EvCase, dir string, scale int) (err error, timing bool) {
 	tree := filepath.Join(dir, "tree")
 	home := filepath.Join(dir, "home")
 	os.MkdirAll(home, 0o755)
 	os.MkdirAll(filepath.Join(tree, "src"), 0o755)
+	os.MkdirAll(filepath.Join(tree, ".cfg"), 0o755)
 	for _, f := range evFiles {
 		os.WriteFile(filepath.Join(tree, f), []byte("x"), 0o644)
 	}
@@ -366,7 +373,7 @@ func runEvents(c EvCase, dir string, scale int) (err error, timing bool) {
 	os.Remove(log)
 	cfg := gen.Map{
 		{K: "tasks", V: gen.Map{{K: "t", V: gen.Map{{K: "command", V: fmt.Sprintf("printf 'EV %%s %%s\\n' \"$EventName\" \"$EventPath\" >> %s", log)}}}}},
-		{K: "watchers", V: gen.Map{{K: "w", V: gen.Map{{K: "watch", V: gen.List{"src/w*", "src/*.go"}}, {K: "exclude", V: gen.List{"src/ex*"}}, {K: "events", V: toList(c.Sub)}, {K: "task", V: "t"}}}}},
+		{K: "watchers", V: gen.Map{{K: "w", V: gen.Map{{K: "watch", V: gen.List{"src/w*", "src/*.go", ".w*", ".cfg/*"}}, {K: "exclude", V: gen.List{"src/ex*"}}, {K: "events", V: toList(c.Sub)}, {K: "task", V: "t"}}}}},
 	}
 	os.WriteFile(filepath.Join(tree, "w.yaml"), []byte(gen.YAML(cfg)), 0o644)
 	cmd := exec.Command(drv.Bin(), "-c", "w.yaml", "watch", "w")
@@ -422,7 +429,7 @@ func runEvents(c EvCase, dir string, scale int) (err error, timing bool) {
 		case "rename":
 			os.Rename(p, p+".moved")
 		}
-		observed := strings.HasPrefix(o.File, "src/w")
+		observed := observedEv(o.File)
 		expect := observed && subscribed[o.Kind]
 		wantLine := o.Kind + " " + o.File
 		deadline := time.Now().Add(time.Duration(scale) * 4 * time.Second)
@@ -456,7 +463,7 @@ func runEvents(c EvCase, dir string, scale int) (err error, timing bool) {
 			if !subscribed[parts[0]] {
 				return fmt.Errorf("the task ran for event %q, which is not subscribed (%v); history %v", l, eff, c.Ops[:i+1]), false
 			}
-			if !strings.HasPrefix(parts[1], "src/w") {
+			if !observedEv(parts[1]) {
 				return fmt.Errorf("the task ran for a path that is not observed: %q; history %v", l, c.Ops[:i+1]), false
 			}
 		}
@@ -497,7 +504,7 @@ func TestEvents(t *testing.T) {
 		}
 		gone := map[string]bool{}
 		for i := rapid.IntRange(1, 6).Draw(rt, "nops"); i > 0; i-- {
-			f := rapid.SampledFrom([]string{"src/w1", "src/w1.go", "src/w1.go", "src/w2.go", "src/ex.go", "other.txt"}).Draw(rt, "file")
+			f := rapid.SampledFrom([]string{"src/w1", "src/w1.go", "src/w1.go", "src/w2.go", "src/ex.go", "other.txt", ".wenv", ".cfg/w3"}).Draw(rt, "file")
 			kind := rapid.SampledFrom([]string{"write", "write", "chmod", "chmod", "remove", "rename"}).Draw(rt, "kind")
 			if gone[f] {
 				continue
@@ -523,7 +530,7 @@ func TestEvents(t *testing.T) {
 		}
 		onObs, unsub := 0, 0
 		for _, o := range c.Ops {
-			if strings.HasPrefix(o.File, "src/w") {
+			if observedEv(o.File) {
 				onObs++
 				if !sub[o.Kind] {
 					unsub++
@@ -545,7 +552,7 @@ func TestEvents(t *testing.T) {
 func TestEventPairs(t *testing.T) {
 	root := t.TempDir()
 	idx, nsh := drv.Shard()
-	observed := []string{"src/w1", "src/w1.go", "src/w2.go"}
+	observed := []string{"src/w1", "src/w1.go", "src/w2.go", ".wenv", ".cfg/w3"}
 	k := 0
 	for _, kind := range []string{"rename", "remove", "write", "chmod"} {
 		for _, a := range observed {
